@@ -7,7 +7,8 @@
   * `reprNC out c` is the generated client; `out` — the scratch buffer `[u8; NETCODE_MAX_PACKET_BYTES]`, which the model does
     not keep — is a parameter; the sending functions leave SOME buffer of the same length (`∃ out'`).  The four methods that
     return `&mut self.out[..len]` return the slice by value (manifest `BORROWED_RETURN_OK`); `process_packet` returns its
-    `&'a [u8]` payload (a slice of the caller's buffer, decrypted in place) by value, with the buffer.
+    `&'a [u8]` payload (a slice of the caller's buffer, decrypted in place) by value, with the buffer (`∃ buf'`;
+    `nc_client_process_packet_len`: of the same length).
   * `new`: `ClientAuthentication::Secure { connect_token }` ↔ the model's `new`; `Unsecure { .. }` generates a token first
     (`ConnectToken::generate`, group NcTokenGen) from the four explicit random values `rand1..rand4` (manifest
     `RANDOM_SOURCES`; parameters of the generated `new`, unused for `Secure`).
@@ -66,6 +67,11 @@ theorem nc_client_process_packet {ε : Type} (a : AEAD) (hl : a.Laws) (out : Lis
     CliPktOut out (c.processPacket a buffer)
       (@Src.renetcode.client.NetcodeClient.process_packet (aeadOf a) ε (reprNC out c) (toNats buffer)) :=
   nc_process_packet_eq a hl out c buffer hbl
+theorem nc_client_process_packet_len {ε : Type} (a : AEAD) (hl : a.Laws) (out : List Nat) (c : Netcode.NetcodeClient) (buffer : Bytes)
+    (hbl : buffer.length + 16 < 2 ^ 64) :
+    CliPktOutL buffer.length out (c.processPacket a buffer)
+      (@Src.renetcode.client.NetcodeClient.process_packet (aeadOf a) ε (reprNC out c) (toNats buffer)) :=
+  nc_process_packet_eqL a hl out c buffer hbl
 theorem nc_client_generate_payload_packet (a : AEAD) (hl : a.Laws) (out : List Nat) (hout : out.length = C.NETCODE_MAX_PACKET_BYTES)
     (c : Netcode.NetcodeClient) (payload : Bytes) :
     CliGenOut c (c.generatePayloadPacket a payload)
